@@ -581,8 +581,8 @@ func stop() {
 	}
 }
 
-func TestClientPort(t *testing.T) { vkit.Check(t, genClient, execute); stop() }
-func TestClusterBenign(t *testing.T) { vkit.Check(t, genCluster(false), execute); stop() }
+func TestClientPort(t *testing.T)     { vkit.Check(t, genClient, execute); stop() }
+func TestClusterBenign(t *testing.T)  { vkit.Check(t, genCluster(false), execute); stop() }
 func TestClusterHostile(t *testing.T) { vkit.Check(t, genCluster(true), execute); stop() }
 
 // TestProbes replays one saved minimal input per listed finding, so that each KNOWN-FINDING line is printed exactly
@@ -594,7 +594,9 @@ func TestProbes(t *testing.T) {
 		k := append(append(be64(77), be64(5)...), be32(1)...)
 		return k[:n]
 	}
-	state := func(typ byte, k, v []byte) []byte { return snappy.Encode(nil, encState(map[byte][]kv{typ: {{k, v}}}, honest)) }
+	state := func(typ byte, k, v []byte) []byte {
+		return snappy.Encode(nil, encState(map[byte][]kv{typ: {{k, v}}}, honest))
+	}
 	surveyID := append(append(make([]byte, 16), be32(0)...), append(be32(3939663052), be32(1)...)...)
 	full := state(0, subKey(20), v16)
 	probes := []struct {
